@@ -677,6 +677,16 @@ func (fr *frame) loopObligations(b *ssa.BasicBlock, ord int) {
 		}
 		isBack := fr.backEdge[[2]int{p.Index, b.Index}]
 		est := &state{cur: "(and " + ps.cur + " " + fr.edge[[2]int{p.Index, b.Index}] + ")", heap: ps.heap}
+		// case split: when the edge comes from a merge block that only jumps here (for.post), one
+		// obligation per way of reaching that block keeps each query a single control path family
+		var splits []string
+		var splitTags []string
+		if isBack {
+			splits, splitTags = fr.pathSplits(p, 0)
+		}
+		if len(splits) == 0 {
+			splits, splitTags = []string{"true"}, []string{""}
+		}
 		for _, inv := range ls.Invariants {
 			sc := &specCtx{fr: fr, st: est, old: fr.entryState(), block: b, phiPred: pi}
 			t := sc.tr(inv.Expr)
@@ -688,7 +698,13 @@ func (fr *frame) loopObligations(b *ssa.BasicBlock, ord int) {
 			if isBack {
 				kind = "inv-preserve"
 			}
-			g.addObl(fr, est, "inv", fmt.Sprintf("loop%d[%s]/%s/from-b%s", ord, inv.Label, kind, edgeTag(fr, p, b)), fmt.Sprintf("loop %d invariant %s (%s)", ord, inv.Label, kind), b.Instrs[0].Pos(), t)
+			for si, sp := range splits {
+				sst := est
+				if sp != "true" {
+					sst = &state{cur: "(and " + est.cur + " " + sp + ")", heap: est.heap}
+				}
+				g.addObl(fr, sst, "inv", fmt.Sprintf("loop%d[%s]/%s/from-b%s%s", ord, inv.Label, kind, edgeTag(fr, p, b), splitTags[si]), fmt.Sprintf("loop %d invariant %s (%s)", ord, inv.Label, kind), b.Instrs[0].Pos(), t)
+			}
 		}
 		if isBack && ls.Decreases != nil {
 			scH := &specCtx{fr: fr, st: head, old: fr.entryState(), block: b, phiPred: -1}
@@ -699,10 +715,46 @@ func (fr *frame) loopObligations(b *ssa.BasicBlock, ord int) {
 				g.rejectf("loop %d variant of %s: %s%s", ord, fr.key, scH.err, scB.err)
 				continue
 			}
-			g.addObl(fr, est, "variant", fmt.Sprintf("loop%d/from-b%s", ord, edgeTag(fr, p, b)), fmt.Sprintf("loop %d variant decreases and is bounded below", ord), b.Instrs[0].Pos(),
-				"(and (>= "+vh+" 0) (< "+vb+" "+vh+"))")
+			for si, sp := range splits {
+				sst := est
+				if sp != "true" {
+					sst = &state{cur: "(and " + est.cur + " " + sp + ")", heap: est.heap}
+				}
+				g.addObl(fr, sst, "variant", fmt.Sprintf("loop%d/from-b%s%s", ord, edgeTag(fr, p, b), splitTags[si]), fmt.Sprintf("loop %d variant decreases and is bounded below", ord), b.Instrs[0].Pos(),
+					"(and (>= "+vh+" 0) (< "+vb+" "+vh+"))")
+			}
 		}
 	}
+}
+
+// pathSplits enumerates the ways of reaching the end of block p through merge blocks (not loop
+// headers), as selection conditions over the reachability constants; at most three levels deep.
+func (fr *frame) pathSplits(p *ssa.BasicBlock, depth int) ([]string, []string) {
+	if _, isHead := fr.heads[p.Index]; isHead || len(p.Preds) < 2 || depth >= 3 || fr.in[p.Index] == nil {
+		return nil, nil
+	}
+	var conds, tags []string
+	for qi, q := range p.Preds {
+		qs := fr.out[q.Index]
+		if qs == nil || fr.backEdge[[2]int{q.Index, p.Index}] {
+			continue
+		}
+		sel := "(and " + qs.cur + " " + fr.edge[[2]int{q.Index, p.Index}] + ")"
+		sub, subTags := fr.pathSplits(q, depth+1)
+		if len(sub) == 0 {
+			conds = append(conds, sel)
+			tags = append(tags, fmt.Sprintf(".via%d", qi))
+			continue
+		}
+		for i := range sub {
+			conds = append(conds, "(and "+sel+" "+sub[i]+")")
+			tags = append(tags, fmt.Sprintf(".via%d%s", qi, subTags[i]))
+		}
+	}
+	if len(conds) > 24 {
+		return nil, nil
+	}
+	return conds, tags
 }
 
 // edgeTag names a loop edge by the ordinal of the predecessor among the header's predecessors
